@@ -353,6 +353,7 @@ func run(c *core.Ctx) {
 					ci2, _ := crashWhere(r2)
 					reportCrash(j.plugin, ci2, r2)
 				} else if r2.Completed {
+					fmt.Printf("note: child of %s died at case %d batch %d but the case alone completes; first death:\n%s\n", j.plugin, ci.Case, ci.Batch, core.Trunc(tailStr(r.Stderr, 1500), 1600))
 					c.Inconclusive("crash not reproduced alone: " + j.plugin)
 					absorb(job{plugin: j.plugin}, r2)
 				} else {
